@@ -350,11 +350,13 @@ class Engine:
                 expected_events = await self.do_lookup(cmd, calls_before)
             elif op == "race":
                 expected_events = await self.do_race(cmd, calls_before)
+            elif op == "race_add":
+                expected_events = await self.do_race_add(cmd, calls_before)
             else:
                 raise ValueError(op)
         finally:
             _SINK = None
-        if op != "race":
+        if op not in ("race",):
             # exactly-once / right-context check of what this command dispatched
             self.compare_events(cmd, expected_events, recv_before)
         # listeners: every open context's real listener must have received exactly the dispatched events
@@ -681,9 +683,73 @@ class Engine:
 
             n_ev = sum(1 for src, ev in self.dispatches if isinstance(ev, ResourceEvent))
             if n_ev != len(events):
-                self.bad("race-async-factory-overlap" if n_ev > 1 else "announce-missing",
-                         f"{cmd}: {n_ev} ResourceEvents were dispatched for one generation", **witness)
+                self.bad("announce-race-duplicate" if n_ev > 1 else "announce-missing",
+                         f"{cmd}: {n_ev} ResourceEvents were dispatched for one generation by {len(cmd['pre'])} concurrent lookups", **witness)
             self.dispatches.clear()
+        return events
+
+    async def do_race_add(self, cmd: dict[str, Any], calls_before: dict[int, int]) -> list[Any]:
+        """one task triggers an async multi-type factory, another adds a static resource under one of the factory's
+        other (still free) types while the factory is suspended; both are then looked up again"""
+        cid, t1, t2, name = cmd["cid"], cmd["type"], cmd["other_type"], cmd["name"]
+        ctx = self.ctx_objs[cid]
+        self.async_yields = cmd["yields"]
+        state: dict[str, Any] = {"lookup_done": False}
+        tag = ("val", cmd["vid"])
+        value = make_value(t2, tag)
+        self.pin(tag, value)
+
+        async def looker() -> None:
+            try:
+                state["lookup"] = ("ok", await ctx.get_resource(POOL[t1], name))
+            except Exception as e:
+                state["lookup"] = ("exc", e)
+            state["lookup_done"] = True
+
+        async def adder() -> None:
+            for _ in range(cmd["pre"]):
+                await checkpoint()
+            state["add_before_lookup_done"] = not state["lookup_done"]
+            try:
+                ctx.add_resource(value, name, [POOL[t2]])
+                state["add"] = ("ok", None)
+            except Exception as e:
+                state["add"] = ("exc", e)
+
+        async def call() -> None:
+            async with create_task_group() as tg:
+                tg.start_soon(looker)
+                tg.start_soon(adder)
+
+        observed = await self.call_in(cid, call)
+        if observed[0] == "exc":
+            self.bad("race-raised", f"{cmd}: {describe_exc(observed[1])}")
+            return []
+        events: list[Any] = []
+        self.inc("race_add_cases")
+        if state["add_before_lookup_done"]:
+            self.inc("race_add_during_generation")
+            self.nontrivial = True
+            exp_add, ev1 = self.model.add_resource(cid, tag, t2, name, [t2], None, None)
+            exp_look, ev2, generation = self.model.lookup(cid, t1, name, False, False)
+        else:
+            exp_look, ev2, generation = self.model.lookup(cid, t1, name, False, False)
+            exp_add, ev1 = self.model.add_resource(cid, tag, t2, name, [t2], None, None)
+        events = ev1 + ev2
+        self.check_outcome("add", exp_add, state["add"], cmd)
+        if self.check_outcome("lookup[factory]", exp_look, state["lookup"], cmd) and exp_look[0] == "ok":
+            gtag, obj = exp_look[1], state["lookup"][1]
+            if gtag not in self.objs and isinstance(obj, Product) and id(obj) not in self.tag_of:
+                self.pin(gtag, obj)
+        # afterwards both pairs must still resolve to what was handed out
+        for t, want in ((t2, tag if exp_add[0] == "ok" else None), (t1, exp_look[1] if exp_look[0] == "ok" else None)):
+            if want is None:
+                continue
+            later = await self.one_lookup(cid, "nowait", t, name, True)
+            exp_later, _, _ = self.model.lookup(cid, t, name, True, True)
+            if later[0] != "ok" or exp_later[0] != "ok" or (exp_later[1] in self.objs and later[1] is not self.objs[exp_later[1]]):
+                self.bad("singleton-different-object", f"{cmd}: after a generation racing with add_resource, ({POOL[t].__name__}, {name!r}) resolves to "
+                                                       f"{self.tagname(later[1]) if later[0] == 'ok' else describe_exc(later[1])}, expected {exp_later[1]}")
         return events
 
     # ---- generation of commands (model-driven, deterministic in rng) ---------------------------
@@ -765,6 +831,10 @@ class Engine:
                 return None
             t, nm = rng.choice(fk)
             f = mc.factories[(t, nm)]
+            others = [tt for tt in f.types if tt != t and (tt, nm) not in mc.resources]
+            if f.is_async and others and rng.random() < 0.4:
+                return {"op": "race_add", "cid": cid, "type": t, "other_type": rng.choice(others), "name": nm, "vid": self.fresh(),
+                        "pre": rng.randint(0, 4), "yields": rng.randint(1, 3)}
             pre = [rng.randint(0, 3) for _ in range(rng.randint(2, 5))]
             free = [tt for tt in f.types if (tt, nm) not in mc.resources]
             return {"op": "race", "cid": cid, "type": t, "name": nm, "pre": pre,
